@@ -57,6 +57,7 @@ import (
 	"os"
 	"runtime"
 	"strings"
+	"sync"
 	"syscall"
 	"time"
 
@@ -433,7 +434,28 @@ func runTeardown(sc tdScenario, watchdog time.Duration) tdOutcome {
 	}
 	ctx := context.Background()
 	conn := connector.NewDummy([]string{"user"}, []byte("pass"), time.Hour, imap.NewFlagSet(`\Seen`), imap.NewFlagSet(`\Seen`), imap.NewFlagSet())
-	uid, err := srv.AddUser(ctx, conn, []byte("passphrase"))
+	var gconn connector.Connector = conn
+	var inflight *c19InflightConn
+	inflightAfter, inflightUpd := 1, "noop"
+	if sc.kind == "inflight" {
+		// sessions = after=<k>,upd=<kind>,<session states...>
+		var rest []string
+		for _, w := range sc.sessions {
+			switch {
+			case strings.HasPrefix(w, "after="):
+				fmt.Sscan(strings.TrimPrefix(w, "after="), &inflightAfter)
+			case strings.HasPrefix(w, "upd="):
+				inflightUpd = strings.TrimPrefix(w, "upd=")
+			case w != "" && w != "-":
+				rest = append(rest, w)
+			}
+		}
+		sc.sessions = rest
+		inflight = c19NewInflightConn(conn)
+		gconn = inflight
+		defer inflight.halt()
+	}
+	uid, err := srv.AddUser(ctx, gconn, []byte("passphrase"))
 	if err != nil {
 		out.setupErr = err.Error()
 		return out
@@ -487,6 +509,17 @@ func runTeardown(sc tdScenario, watchdog time.Duration) tdOutcome {
 		cancel()
 		time.Sleep(300 * time.Millisecond)
 	}
+	if inflight != nil && out.setupErr == "" {
+		// the connector publishes updates without pause on its unbuffered channel; the teardown starts the moment
+		// the `after`-th send has returned (the injector's forwarder has taken that update) and the producer goes on
+		reached := make(chan struct{})
+		inflight.produce(inflightUpd, inflightAfter, reached)
+		select {
+		case <-reached:
+		case <-time.After(10 * time.Second):
+			out.setupErr = fmt.Sprintf("inflight: update %d was not taken off the connector channel within 10 s", inflightAfter)
+		}
+	}
 	done := make(chan error, 1)
 	go func() {
 		if sc.how == "removeuser+close" {
@@ -508,6 +541,9 @@ func runTeardown(sc tdScenario, watchdog time.Duration) tdOutcome {
 		out.leftover = tdTopFrames(baseFrames)
 	}
 	close(env.stopLoops)
+	if inflight != nil {
+		inflight.halt()
+	}
 	_ = l.Close()
 	for _, cl := range env.clients {
 		_ = cl.c.Close()
@@ -522,6 +558,84 @@ func runTeardown(sc tdScenario, watchdog time.Duration) tdOutcome {
 	}
 	out.goroutines = runtime.NumGoroutine()
 	return out
+}
+
+// c19InflightConn: the dummy connector with its update stream re-published on an UNBUFFERED channel (as a
+// connector that hands over updates one by one does), plus a producer that keeps that channel busy: while the
+// user's update goroutine applies update k, the injector's forwarder already holds update k+1. RemoveUser /
+// Server.Close in that situation stop the update goroutine first and the forwarder second (user.close): every
+// blocking hand-over of the forwarder must watch the channel its Close closes.
+type c19InflightConn struct {
+	*connector.Dummy
+	ch       chan imap.Update
+	stop     chan struct{}
+	stopOnce sync.Once
+	wg       sync.WaitGroup
+}
+
+func c19NewInflightConn(d *connector.Dummy) *c19InflightConn {
+	c := &c19InflightConn{Dummy: d, ch: make(chan imap.Update), stop: make(chan struct{})}
+	src := d.GetUpdates()
+	c.wg.Add(1)
+	go func() {
+		defer c.wg.Done()
+		for {
+			select {
+			case u, ok := <-src:
+				if !ok {
+					return
+				}
+				select {
+				case c.ch <- u:
+				case <-c.stop:
+					return
+				}
+			case <-c.stop:
+				return
+			}
+		}
+	}()
+	return c
+}
+
+func (c *c19InflightConn) GetUpdates() <-chan imap.Update { return c.ch }
+
+// produce publishes updates of the given kind until halt(); closes reached when the after-th send has returned.
+func (c *c19InflightConn) produce(kind string, after int, reached chan struct{}) {
+	c.wg.Add(1)
+	go func() {
+		defer c.wg.Done()
+		for i := 1; ; i++ {
+			var u imap.Update = imap.NewNoop()
+			if kind == "mailbox" || (kind == "mixed" && i%2 == 1) {
+				u = imap.NewMailboxCreated(imap.Mailbox{ID: imap.MailboxID(fmt.Sprintf("c19fl-%d", i)), Name: []string{fmt.Sprintf("fl%d", i)},
+					Flags: imap.NewFlagSet(`\Seen`), PermanentFlags: imap.NewFlagSet(`\Seen`), Attributes: imap.NewFlagSet()})
+			}
+			select {
+			case c.ch <- u:
+			case <-c.stop:
+				return
+			}
+			if i == after {
+				close(reached)
+			}
+		}
+	}()
+}
+
+func (c *c19InflightConn) halt() {
+	c.stopOnce.Do(func() { close(c.stop) })
+	c.wg.Wait()
+}
+
+// tdInflight: the directed in-flight scenarios (run on every seed) - both teardown paths, with and without
+// sessions, after the 1st / 2nd / 3rd / 8th / 50th update, cheap (Noop) and DB-writing (MailboxCreated) updates.
+var tdInflight = []tdScenario{
+	{kind: "inflight", how: "removeuser+close", sessions: []string{"after=1", "upd=noop"}},
+	{kind: "inflight", how: "close", sessions: []string{"after=2", "upd=mailbox", "selected"}},
+	{kind: "inflight", how: "removeuser+close", sessions: []string{"after=3", "upd=mixed", "idle", "selected"}},
+	{kind: "inflight", how: "close", sessions: []string{"after=8", "upd=noop", "idle"}},
+	{kind: "inflight", how: "removeuser+close", sessions: []string{"after=50", "upd=mailbox"}},
 }
 
 // tdUpdRace: connector updates are applied (MessageCreated + Flush from a feeder goroutine) while sessions
@@ -695,7 +809,7 @@ func tdParseScenario(line string) (tdScenario, bool) {
 		return tdScenario{}, false
 	}
 	switch w[0] {
-	case "teardown", "ctxcancel", "errch", "snaprace", "updrace":
+	case "teardown", "ctxcancel", "errch", "snaprace", "updrace", "inflight":
 	default:
 		return tdScenario{}, false
 	}
@@ -713,6 +827,7 @@ func runOracleTeardown(args []string) int {
 	updrace := fs.Int("updrace", 0, "rounds of the updates-vs-login/logout scenario (for the -race build)")
 	noHang := fs.Bool("nohang", false, "skip the ctxcancel / errch scenarios")
 	noDirected := fs.Bool("nodirected", false, "skip the directed scenarios")
+	nInflight := fs.Int("inflight", 3, "number of random in-flight-update teardown scenarios (besides the directed ones)")
 	stalled := fs.Bool("stalled", false, "also RemoveUser while a client that does not read is still connected (label `c19teardown stalled-writer`)")
 	_ = fs.Parse(args)
 	logrus.SetLevel(logrus.PanicLevel)
@@ -738,6 +853,18 @@ func runOracleTeardown(args []string) int {
 				}
 				scs = append(scs, sc)
 			}
+		}
+		if !*noDirected {
+			scs = append(scs, tdInflight...)
+		}
+		rf := NewRng(*seed ^ 0xc19f11)
+		for i := 0; i < *nInflight; i++ {
+			sc := tdScenario{kind: "inflight", how: Pick(rf, []string{"close", "removeuser+close"})}
+			sc.sessions = []string{fmt.Sprintf("after=%d", rf.Range(1, 40)), "upd=" + Pick(rf, []string{"noop", "mailbox", "mixed"})}
+			for k := rf.Intn(3); k > 0; k-- {
+				sc.sessions = append(sc.sessions, Pick(rf, []string{"selected", "idle", "auth", "noop-loop", "idle-rst", "dropped"}))
+			}
+			scs = append(scs, sc)
 		}
 		for i := 0; i < *n; i++ {
 			sc := tdScenario{kind: "teardown", how: Pick(r, []string{"close", "removeuser+close"})}
@@ -780,6 +907,9 @@ func runOracleTeardown(args []string) int {
 		if regression || tdStalledWriter(sc) {
 			wd = 5 * time.Second
 		}
+		if sc.kind == "inflight" {
+			wd = 10 * time.Second
+		}
 		o := runTeardown(sc, wd)
 		res.Evaluations++
 		if o.setupErr != "" {
@@ -813,6 +943,10 @@ func runOracleTeardown(args []string) int {
 			res.Stats["stalled-writer"]++
 			what := "RemoveUser did not return within 5 s: a session of the user is blocked in Session.WriteResponse (conn.Write without deadline; its client is connected but does not read the answer of a large FETCH) and user.close waits in statesWG.Wait() - under Backend.usersLock - for as long as that client likes (hypothesis hObservesDone of teardown_completes is not met by a session blocked in write(2)); Server.Close alone is not affected, it closes the connections first"
 			res.Violations = append(res.Violations, oracleViolation{Desc: "c19teardown stalled-writer: " + what + "; blocked: " + o.leftover, Replay: writeReplay(*replayDir, "C19-c19teardown-stalled-writer.txt", replayText(what))})
+		case !o.returned && sc.kind == "inflight":
+			hangs++
+			what := "RemoveUser/Server.Close did not return within 10 s while the connector kept publishing updates on its (unbuffered) channel: the teardown started when the `after`-th update had been taken by the update injector's forwarder; user.close stops the goroutine that reads updateInjector.GetUpdates() BEFORE it closes the injector, so every blocking hand-over of the forwarder has to watch forwardQuitCh (theorems backend_loops_watch_quit, forwarder_close_returns; without it forwarder_unwatched_send_stuck_witness)"
+			res.Violations = append(res.Violations, oracleViolation{Desc: "c19teardown inflight-hang: " + what + "; blocked: " + o.leftover, Replay: writeReplay(*replayDir, file("inflight-hang"), replayText(what))})
 		case !o.returned:
 			hangs++
 			what := "RemoveUser/Server.Close did not return within 20 s (sessions were brought into the listed states first; every session loop can observe Done / its closed connection, the assumption of teardown_completes)"
